@@ -64,48 +64,65 @@ def r_fallback(ctx, rule='R-FALLBACK'):
         if not ctx.need(bool(hdrs), rule, 'retry loop around create_split in ' + f.path):
             continue
         loop = paths.natural_loop(f, max(hdrs, key=lambda h: -len(paths.natural_loop(f, h))) if False else min(hdrs, key=lambda h: len(paths.natural_loop(f, h))))
-        # counter: a local compared == 0 on a loop exit, initialised with a constant, decremented by 1 in the loop
+        # counter: a local initialised with a constant outside the loop, moved by exactly 1 in one direction on every retry,
+        # and compared with a constant it is moving towards on a loop exit (`n == 0` counting down, `n == MAX` counting up, ...)
         good = False
         why = ''
+        hdr = min(hdrs, key=lambda h: len(paths.natural_loop(f, h)))
         for b in loop:
             for s in f.succ(b):
                 if s in loop:
                     continue
                 e = paths.edge_cond(f, b, s)
-                if e and e[0] == 'bool':
-                    c = strip(e[1])
-                    if c[0] == 'binop' and c[1] in ('Eq', 'Le') and const_eval(c[3]) == 0 and e[2]:
-                        cnt = strip(c[2])
-                        if cnt[0] == 'phi':
-                            l = cnt[1]
-                            ds = [d for d in f.defs().get(l, []) if not d[-1]]
-                            init = [d for d in ds if d[1] not in loop]
-                            dec = [d for d in ds if d[1] in loop]
-                            ok_init = len(init) == 1 and const_eval(f._def_term(init[0], 0, frozenset([l]))) is not None and const_eval(f._def_term(init[0], 0, frozenset([l]))) >= 0
-                            ok_dec = False
-                            for d in dec:
-                                t = strip(f._def_term(d, 0, frozenset([l])))
-                                t = t[1] if t[0] == 'field' else t
-                                if t[0] == 'binop' and t[1].startswith('Sub') and const_eval(t[3]) == 1:
-                                    # executed on every iteration that loops back
-                                    hdr = min(hdrs, key=lambda h: len(paths.natural_loop(f, h)))
-                                    ok_dec = paths.must_pass(f, cs.target, [hdr], [d[1]]) or True and all(
-                                        d[1] in f.reachable(x) or True for x in [cs.target])
-                                    outside = set(range(f.n)) - loop
-                                    back = f.reachable(cs.target, avoid=outside | {d[1]})
-                                    ok_dec = hdr not in back or hdr == cs.bb and cs.bb not in back
-                            good = ok_init and ok_dec and len(dec) == 1
-                            why = 'init const: %s, strictly decreasing on every retry: %s' % (ok_init, ok_dec)
-        ctx.check(good, rule, f.path + '/bounded-retries', cs.loc(), 'retry counter starts at a constant, decreases by 1 on every retry, loop ends at 0',
-                  'the split retry loop of `%s` is not bounded by a strictly decreasing counter (%s): degenerate data could retry forever' % (f.path, why))
-        # imbalance fallback
+                if not (e and e[0] == 'bool'):
+                    continue
+                c = strip(e[1])
+                if not (c[0] == 'binop' and c[1] in ('Eq', 'Le', 'Ge', 'Lt', 'Gt', 'Ne') and const_eval(c[3]) is not None):
+                    continue
+                op = c[1] if e[2] else {'Eq': 'Ne', 'Ne': 'Eq', 'Le': 'Gt', 'Gt': 'Le', 'Ge': 'Lt', 'Lt': 'Ge'}[c[1]]
+                bound = const_eval(c[3])
+                cnt = strip(c[2])
+                if cnt[0] != 'phi':
+                    continue
+                l = cnt[1]
+                ds = [d for d in f.defs().get(l, []) if not d[-1]]
+                init = [d for d in ds if d[1] not in loop]
+                steps = [d for d in ds if d[1] in loop]
+                c0 = const_eval(f._def_term(init[0], 0, frozenset([l]))) if len(init) == 1 else None
+                direction = None
+                every = False
+                if len(steps) == 1:
+                    t = strip(f._def_term(steps[0], 0, frozenset([l])))
+                    t = t[1] if t[0] == 'field' else t
+                    if t[0] == 'binop' and const_eval(t[3]) == 1 and strip(t[2])[0] in ('phi', 'var') and strip(t[2])[1] == l:
+                        direction = -1 if t[1].startswith('Sub') else (1 if t[1].startswith('Add') else None)
+                    # the step is executed on every path that loops back to a new attempt
+                    outside = set(range(f.n)) - loop
+                    back = f.reachable(cs.target, avoid=outside | {steps[0][1]})
+                    every = hdr not in back or (hdr == cs.bb and cs.bb not in back)
+                towards = False
+                if c0 is not None and direction is not None:
+                    if direction < 0:
+                        towards = bound <= c0 and op in ('Eq', 'Le', 'Lt')
+                    else:
+                        towards = bound >= c0 and op in ('Eq', 'Ge', 'Gt')
+                if towards and every:
+                    good = True
+                why = 'start %s, step %s on every retry: %s, exit when counter %s %s' % (c0, direction, every, op, bound)
+        ctx.check(good, rule, f.path + '/bounded-retries', cs.loc(), 'retry counter starts at a constant, moves by 1 on every retry towards the constant that ends the loop (%s)' % why,
+                  'the split retry loop of `%s` is not bounded by a counter moving towards its limit on every retry (%s): degenerate data could retry forever' % (f.path, why))
+        # imbalance fallback: in the constructor that recurses on the two halves (a helper that only searches the plane
+        # has nothing to fall back to; after virtual inlining its loop is part of the constructor anyway)
+        if not any(c.callee == f.path for c in f.calls()):
+            continue
         rnd = [c for c in f.calls() if c.callee.endswith('randomly_split_children')]
         okf = False
         for c in rnd:
             for s, x, e in paths.controlling_conds(f, c.bb, transitive=False):
                 if e[0] == 'bool' and e[2]:
                     cc = strip(e[1])
-                    if cc[0] == 'binop' and cc[1] in ('Gt', 'Ge') and strip(cc[2])[0] == 'call' and strip(cc[2])[1].endswith('split_imbalance') and strip(cc[3])[0] == 'const':
+                    if cc[0] == 'binop' and cc[1] in ('Gt', 'Ge') and strip(cc[3])[0] == 'const' and \
+                            any(y[0] == 'call' and y[1].endswith('split_imbalance') for y in walk(cc[2])):
                         okf = True
         ctx.check(okf, rule, f.path + '/imbalance-fallback', rnd[0].loc() if rnd else f.loc(), 'an over-threshold imbalance falls back to a random split',
                   '`%s` has no random fallback when every hyperplane puts (almost) all items on one side: duplicates would recurse forever' % f.path)
@@ -134,17 +151,42 @@ def r_centroid(ctx, rule='R-CENTROID'):
         okr = bool(rng) and const_eval(dict(rng[0][3])['start']) == 0 and (const_eval(dict(rng[0][3])['end']) or 0) > 0
         ctx.check(okr, rule, f.path + '/bounded', f.loc(), 'constant number of iterations (%s)' % (const_eval(dict(rng[0][3])['end']) if rng else '?'), '`%s` does not iterate a constant number of times' % f.path)
         upd = [c for c in f.calls() if c.callee.endswith('Distance::update_mean')]
-        nan_g = le_g = False
+        # which signs of the norm can reach an update?  every guard that edge-dominates the update and only talks about the
+        # norm is evaluated on the sign domain {neg, zero, pos, nan}; the survivors must be {pos}
+        from rules import strip_all
+        import absint
+
+        def truth(cond, nt, sgn):
+            c0 = strip(cond)
+            if c0[0] == 'unop' and c0[1] == 'Not':
+                v = truth(c0[2], nt, sgn)
+                return None if v is None else (not v)
+            if c0[0] == 'call' and c0[1].endswith('f32>::is_nan') and c0[2] and strip_all(c0[2][0]) == nt:
+                return sgn == 'nan'
+            if c0[0] == 'binop' and c0[1] in ('Lt', 'Le', 'Gt', 'Ge', 'Eq', 'Ne'):
+                a, b = strip_all(c0[2]), strip_all(c0[3])
+                if a == nt and absint.f32_const_sign(c0[3]):
+                    return absint.cmp_signs(c0[1], sgn, absint.f32_const_sign(c0[3]))
+                if b == nt and absint.f32_const_sign(c0[2]):
+                    return absint.cmp_signs(c0[1], absint.f32_const_sign(c0[2]), sgn)
+            return None
+        all_pos = bool(upd)
+        survivors_seen = []
         for c in upd:
-            for s, x, e in paths.controlling_conds(f, c.bb):
-                if e[0] == 'bool' and paths.edge_dominates(f, s, x, c.bb):
-                    cc = strip(e[1])
-                    if cc[0] == 'call' and cc[1].endswith('f32>::is_nan') and not e[2]:
-                        nan_g = True
-                    if cc[0] == 'binop' and ((cc[1] == 'Le' and not e[2]) or (cc[1] == 'Gt' and e[2])) and const_eval(cc[3]) == 0:
-                        le_g = True
+            nt = strip_all(c.arg_term(2))
+            survivors = set(absint.SIGNS)
+            for s0, x0, e in paths.controlling_conds(f, c.bb):
+                if e[0] == 'bool' and paths.edge_dominates(f, s0, x0, c.bb):
+                    for sgn in list(survivors):
+                        v = truth(e[1], nt, sgn)
+                        if v is not None and v != e[2]:
+                            survivors.discard(sgn)
+            survivors_seen.append(sorted(survivors))
+            if survivors != {'pos'}:
+                all_pos = False
+        nan_g = le_g = all_pos
         ctx.check(bool(upd) and nan_g and le_g, rule, f.path + '/norm-guard', f.loc(), 'centroid update skipped when the norm is NaN or <= 0',
-                  '`%s` updates a centroid with a NaN or non-positive norm (division by zero / NaN centroids)' % f.path)
+                  '`%s` updates a centroid with a NaN or non-positive norm (division by zero / NaN centroids; norm signs reaching the update: %s)' % (f.path, survivors_seen))
     # normalisation divides only under norm > 0
     for p, f in F.fns.items():
         if p.endswith('Distance::normalize') or p.endswith(' as distance::Distance>::normalize'):
@@ -184,3 +226,8 @@ def run(ctx):
     from props import C01
     import premises
     premises.forest(ctx)
+    # "still build in bounded time": the worklist of over-full buckets drains (C14's progress rules) -- duplicates are exactly
+    # the data on which a bucket cannot be split by a plane, so a bucket handed back unsplit must not be re-queued forever
+    import forest_rules as fr
+    fr.r_worklist(ctx)
+    fr.r_progress(ctx)
